@@ -459,10 +459,10 @@ fn inputs(seed: u64, idx: u64) -> (Vec<String>, bool) {
 pub fn run(ctx: &Ctx) -> Report {
     let mut rep = Report::new(
         "fault_enumeration",
-        "library: grammar-G module sets (valid, and every third one malformed) x both backends x sources as literals / file paths / mixed x destination state {file absent, existing shorter file, existing longer file, existing file of exactly the new text's length that differs in one character (also as generated.<ext> inside a directory), missing parent directory, parent is a regular file, /dev/full, directory whose generated.<ext> is itself a directory, empty directory, directory with a longer generated.<ext>, stdout, no output} — each case runs compile() in a child process (same environment as the compile_to_string() reference taken in that very process, rustfmt unavailable) with file-system snapshots of the destination tree before and after and captured stdout. CLI: the real rasn_compiler_cli built from /repo with feature cli, on directory trees (nested, .asn and .asn1, decoy files) or -m lists x {-o PATH, --stdout, --no-output, default path} x both backends, compared with the library on the same file set. Non-trivial = child finished and all observations judged; distinct by (input, backend, destination state).",
+        "library: grammar-G module sets (valid, and every third one malformed) x both backends x sources as literals / file paths / mixed x destination state {file absent, existing shorter file, existing longer file, existing file of exactly the new text's length that differs in one character (also as generated.<ext> inside a directory), missing parent directory, parent is a regular file, /dev/full, directory whose generated.<ext> is itself a directory, empty directory, directory with a longer generated.<ext>, stdout, no output} — each case runs compile() in a child process (same environment as the compile_to_string() reference taken in that very process, rustfmt unavailable) with file-system snapshots of the destination tree before and after and captured stdout. CLI: the real rasn_compiler_cli built from /repo with feature cli, on directory trees (nested, .asn and .asn1, decoy files) or -m lists x {-o PATH, --stdout, --no-output, default path} x both backends, compared with the library on the same file set. asn1!: 18 (quick) / 288 (thorough) literals (whole modules, assignments without header - which the macro wraps -, truncated texts, texts with quotes / backslashes / non-ASCII) each as `mod mac_k { asn1!(..) }` next to `mod lib_k { include!(library output) }` in one crate expanded by the real rustc (-Zunpretty=expanded, proc macro built from /repo): the macro panics iff the library returns Err, and the expanded items of the two modules are equal (use declarations as a set). Non-trivial = child finished and all observations judged; distinct by (input, backend, destination state).",
     );
-    rep.must_observe = vec!["library_cases".into(), "cli_invocations".into(), "cli_invocations[-d .]".into(), "cli_invocations[-d .DOTNAME]".into(), "cli_invocations[--stdout on /dev/full]".into(), "library_cases[stdout:/dev/full]".into(), "library_cases[failed-compilation]".into(), "library_cases[unwritable-destination]".into()];
-    rep.assumptions = vec!["we run as root: unwritable destinations are produced by ENOTDIR / ENOSPC (/dev/full) / EISDIR, not by mode bits".into(), "the asn1! macro comparison (nightly -Zunpretty=expanded) is not part of this revision".into()];
+    rep.must_observe = vec!["library_cases".into(), "cli_invocations".into(), "cli_invocations[-d .]".into(), "cli_invocations[-d .DOTNAME]".into(), "cli_invocations[--stdout on /dev/full]".into(), "library_cases[stdout:/dev/full]".into(), "library_cases[failed-compilation]".into(), "library_cases[unwritable-destination]".into(), "macro_expansions_compared".into(), "macro_failures_matching_library_err".into()];
+    rep.assumptions = vec!["we run as root: unwritable destinations are produced by ENOTDIR / ENOSPC (/dev/full) / EISDIR, not by mode bits".into(), "asn1!: the wrapping rule (no BEGIN in the literal => dummy AUTOMATIC TAGS module) is replicated by the harness; expansion observed with the nightly toolchain's -Zunpretty=expanded".into()];
     let exe = std::env::current_exe().expect("current_exe");
     let work = std::env::temp_dir().join(format!("vcheck-c20-{}", std::process::id()));
     let _ = std::fs::create_dir_all(&work);
@@ -522,5 +522,8 @@ pub fn run(ctx: &Ctx) -> Report {
         });
     }
     let _ = std::fs::remove_dir_all(&work);
-    acc.into_inner()
+    let mut rep = acc.into_inner();
+    // the asn1! proc macro, expanded by the real rustc
+    crate::c20macro::run(ctx, &mut rep);
+    rep
 }
